@@ -3,3 +3,4 @@ pub mod pure;
 pub mod state;
 pub mod expr;
 pub mod column;
+pub mod codepage;
